@@ -79,6 +79,153 @@ example :
     (askType id [] (hearQuery id [] [{ probe := false, questions := [(qx, true)], records := [new] }] 1000) 1500 false "_x._tcp.local.").1.isSome = true := by
   decide
 
+/-! ## runs of an instance: "asked it, or heard it, within the previous 999 ms"
+
+`Op` (`Proofs/QueryGenRun.lean`) are the operations of one instance that touch its question history — any browser's
+`generate_service_query`, any lookup's `_generate_request_query`, `async_response` on an assembled query, the 10 s clean-up tick — with
+arbitrary caches, clocks, types and names per operation.  `runOps [] ops` is the history after the run together with the run's
+**sightings**: every QM question the instance transmitted and every QM question it heard that it can answer, each with its time and
+known-answer list.  The sentence of the property speaks about these sightings, not about the dict. -/
+
+/-- the run is chronological and lies in the past of `now` -/
+def C13.Chrono (ops : List Op) (now : Int) : Prop := ops.Pairwise (fun a b => a.time ≤ b.time) ∧ ∀ op ∈ ops, op.time ≤ now
+
+/-- **What the code decides, in terms of the run.**  After any chronological run from the empty history, a browser question asked at `now`
+is omitted iff it is QM and the **latest** sighting of that question in the run — asked or heard — is at most 999 ms old with a
+known-answer list of which every record is among ours.  The clean-up ticks of the run play no role; neither does which browser or lookup
+asked.  (Same for a lookup question: `C13_run_lookup_suppress_iff`.) -/
+theorem C13_run_suppress_iff (ops : List Op) (now : Int) (hc : C13.Chrono ops now) (cache : List Rec) (qu : Bool) (ty : String) :
+    (askType lower cache (runOps lower [] ops).1 now qu ty).1 = none ↔
+      qu = false ∧ ∃ s, lastSighting lower (runOps lower [] ops).2 { name := ty, type := 12, class_ := 1, unique := qu } = some s ∧
+        now - s.time ≤ 999 ∧ Covers lower s (knownAnswers lower cache ty 12 1 now) := by
+  have hf := runOps_futEqAt lower now ops [] [] (by simp [History.Keyed]) hc.2 (fun _ _ => rfl)
+  rw [askType_eq]
+  cases qu with
+  | true => simp
+  | false =>
+    simp only [Bool.not_false, Bool.true_and, true_and]
+    rw [hf _ _]
+    by_cases hs : (History.seeAll lower [] (runOps lower [] ops).2).suppresses lower { name := ty, type := 12, class_ := 1, unique := false } now
+        (knownAnswers lower cache ty 12 1 now) = true
+    · rw [if_pos hs]
+      simp only [true_iff]
+      exact (suppresses_seeAll lower _ _ now _).1 hs
+    · rw [if_neg hs]
+      constructor
+      · intro hh; cases hh
+      · intro hex; exact absurd ((suppresses_seeAll lower _ _ now _).2 hex) hs
+
+theorem C13_run_lookup_suppress_iff (ops : List Op) (now : Int) (hc : C13.Chrono ops now) (cache : List Rec) (qu : Bool)
+    (name : String) (type cls : Nat) :
+    (addQuestion lower cache (runOps lower [] ops).1 now qu name type cls false).1 = none ↔
+      qu = false ∧ ∃ s, lastSighting lower (runOps lower [] ops).2 { name, type, class_ := cls, unique := qu } = some s ∧
+        now - s.time ≤ 999 ∧ Covers lower s (knownAnswers lower cache name type cls now) := by
+  have hf := runOps_futEqAt lower now ops [] [] (by simp [History.Keyed]) hc.2 (fun _ _ => rfl)
+  rw [addQuestion_eq]
+  cases qu with
+  | true => simp
+  | false =>
+    simp only [Bool.false_and, Bool.false_eq_true, if_false, true_and]
+    rw [hf _ _]
+    by_cases hs : (History.seeAll lower [] (runOps lower [] ops).2).suppresses lower { name, type, class_ := cls, unique := false } now
+        (knownAnswers lower cache name type cls now) = true
+    · rw [if_pos hs]
+      simp only [true_iff]
+      exact (suppresses_seeAll lower _ _ now _).1 hs
+    · rw [if_neg hs]
+      constructor
+      · intro hh; cases hh
+      · intro hex; exact absurd ((suppresses_seeAll lower _ _ now _).2 hex) hs
+
+/-- the sentence's condition: **some** sighting of the question within the previous 999 ms had a known-answer list we fully know -/
+def C13.SomeSightingCovers (ss : List Sighting) (q : Question) (now : Int) (known : List Rec) : Prop :=
+  ∃ s ∈ ss, s.q.beq lower q = true ∧ now - s.time ≤ 999 ∧ Covers lower s known
+
+/-- **The sentence at full strength** ("a QM question is not sent if this instance asked it, or heard it as an authoritative responder,
+within the previous 999 ms with a known-answer list that contained nothing it does not know itself", and is sent otherwise): omitted iff QM
+and some sighting of the run covers. -/
+def C13.suppress_any_sighting_full : Prop :=
+  ∀ (ops : List Op) (now : Int), C13.Chrono ops now → ∀ (cache : List Rec) (ty : String),
+    (askType lower cache (runOps lower [] ops).1 now false ty).1 = none ↔
+      C13.SomeSightingCovers lower (runOps lower [] ops).2 { name := ty, type := 12, class_ := 1, unique := false } now
+        (knownAnswers lower cache ty 12 1 now)
+
+/-- the input class of **finding D13b**: a sighting within the window covers, but a *later* sighting of the same question — the one
+the dict kept — does not -/
+def C13.LastSightingWorse (ss : List Sighting) (q : Question) (now : Int) (known : List Rec) : Prop :=
+  C13.SomeSightingCovers lower ss q now known ∧ ∃ s, lastSighting lower ss q = some s ∧ ¬ Covers lower s known
+
+/-- **Never suppressed without a reason** (unconditional half of the sentence): an omitted question is QM and some sighting of the run,
+at most 999 ms old, covers. -/
+theorem C13_suppressed_only_if_sighted (ops : List Op) (now : Int) (hc : C13.Chrono ops now) (cache : List Rec) (qu : Bool) (ty : String)
+    (h : (askType lower cache (runOps lower [] ops).1 now qu ty).1 = none) :
+    qu = false ∧ C13.SomeSightingCovers lower (runOps lower [] ops).2 { name := ty, type := 12, class_ := 1, unique := qu } now
+      (knownAnswers lower cache ty 12 1 now) := by
+  obtain ⟨hq, s, hs, hw, hcov⟩ := (C13_run_suppress_iff lower ops now hc cache qu ty).1 h
+  obtain ⟨hm, hk⟩ := lastSighting_some lower hs
+  exact ⟨hq, s, hm, hk, hw, hcov⟩
+
+/-- **Suppression over any sighting (partial: finding D13b).**  Outside the class `LastSightingWorse` the sentence holds at full strength:
+the question is omitted iff some sighting of the run within the previous 999 ms covers.  Missing: inside the class — an earlier sighting
+covers, a later one does not — `QuestionHistory` has overwritten the earlier sighting (`self._history[question] = (now, known_answers)`
+keeps one entry per question) and the question is sent although the sentence says it is not (`C13_suppress_any_sighting_refuted`). -/
+theorem C13_suppress_any_sighting_partial (ops : List Op) (now : Int) (hc : C13.Chrono ops now) (cache : List Rec) (ty : String)
+    (hnot : ¬ C13.LastSightingWorse lower (runOps lower [] ops).2 { name := ty, type := 12, class_ := 1, unique := false } now
+      (knownAnswers lower cache ty 12 1 now)) :
+    (askType lower cache (runOps lower [] ops).1 now false ty).1 = none ↔
+      C13.SomeSightingCovers lower (runOps lower [] ops).2 { name := ty, type := 12, class_ := 1, unique := false } now
+        (knownAnswers lower cache ty 12 1 now) := by
+  constructor
+  · intro h; exact (C13_suppressed_only_if_sighted lower ops now hc cache false ty h).2
+  · intro hsome
+    rw [C13_run_suppress_iff lower ops now hc]
+    refine ⟨rfl, ?_⟩
+    have hsome' := hsome
+    obtain ⟨s0, hm0, hk0, hw0, -⟩ := hsome'
+    obtain ⟨s, hs⟩ := lastSighting_isSome lower hm0 hk0
+    refine ⟨s, hs, ?_, ?_⟩
+    · have := lastSighting_latest lower (runOps_chrono lower ops [] hc.1).1 hs s0 hm0 hk0
+      omega
+    · apply Classical.byContradiction
+      intro hn
+      exact hnot ⟨hsome, s, hs, hn⟩
+
+/-- the reviewer's sequence: we ask `_x` at 0 knowing `Inst0` (sent: a sighting with a list we know), hear the same question at 100 from
+a peer that also lists `Other` (which we do not hold), and want to ask again at 500 with the same cache -/
+def exInst0 : Rec := { name := "_x._tcp.local.", type := 12, class_ := 1, unique := false, ttl := 4500, created := 0, rdata := .ptr "Inst0._x._tcp.local." }
+def exOther : Rec := { name := "_x._tcp.local.", type := 12, class_ := 1, unique := false, ttl := 4500, created := 100, rdata := .ptr "Other._x._tcp.local." }
+def exLastWorse : List Op :=
+  [.browse [exInst0] 0 false ["_x._tcp.local."],
+   .hear [{ probe := false, questions := [({ name := "_x._tcp.local.", type := 12, class_ := 1, unique := false }, true)], records := [exInst0, exOther] }] 100]
+
+/-- the hypothesis `Chrono` is met by it -/
+theorem exLastWorse_chrono : C13.Chrono exLastWorse 500 := by
+  refine ⟨?_, ?_⟩
+  · simp [exLastWorse, Op.time]
+  · intro op hop
+    simp only [exLastWorse, List.mem_cons, List.not_mem_nil, or_false] at hop
+    rcases hop with rfl | rfl <;> simp [Op.time]
+
+/-- **false today (finding D13b)**: in `exLastWorse` the sighting at 0 is 500 ms old and its list is fully known, yet the question is
+sent at 500 — the history only remembers the sighting at 100, whose list contains `Other`. -/
+theorem C13_suppress_any_sighting_refuted : ¬ C13.suppress_any_sighting_full id := by
+  intro h
+  have := (h exLastWorse 500 exLastWorse_chrono [exInst0] "_x._tcp.local.").2
+    ⟨{ q := { name := "_x._tcp.local.", type := 12, class_ := 1, unique := false }, time := 0, known := [exInst0] },
+      by decide, by decide, by decide, by
+        intro r hr
+        simp only [List.mem_singleton] at hr
+        subst hr
+        exact ⟨exInst0, by decide, by decide⟩⟩
+  have h2 : (askType id [exInst0] (runOps id [] exLastWorse).1 500 false "_x._tcp.local.").1.isSome = true := by decide
+  rw [this] at h2
+  cases h2
+
+/-- the witness is in the finding's class, and the class hypothesis of the partial theorem is met by ordinary runs (here: the same run
+without the heard query) -/
+example : (askType id [exInst0] (runOps id [] exLastWorse).1 500 false "_x._tcp.local.").1.isSome = true ∧
+    (askType id [exInst0] (runOps id [] (exLastWorse.take 1)).1 500 false "_x._tcp.local.").1.isNone = true := by decide
+
 /-! ## split over several packets with the TC bit -/
 
 section split
